@@ -95,7 +95,7 @@ Print Assumptions C08_whatever_exists_is_refused.
 From XcpProofs Require Import WalkerProofs XWalker.
 From Coq Require Import String.
 Theorem C08_link_operand_is_one_action : forall cfg keep dexists text res,
-  w_deref cfg = false -> keep [] (tree_is_dir (TLink text res)) = true ->
+  w_deref cfg = false -> keep [] (tree_is_dir false (TLink text res)) = true ->
   walk cfg keep dexists [] (TLink text res) =
     if w_no_clobber cfg && dexists [] then ([WErr 1 []], false) else ([WLink [] text], true).
 Proof. exact link_operand_is_one_action. Qed.
